@@ -839,6 +839,18 @@ func direct(r *vh.Run, c c16Case) {
 		}
 		return
 	}
+	if c.Idx%3 == 1 {
+		// the log is polled while the exchange is in flight (fixed third of the cases):
+		// what is exported later must still describe the completed exchange
+		if pend := l.Export(); pend == nil || pend.Log == nil || len(pend.Log.Entries) != 1 || pend.Log.Entries[0].Response != nil {
+			r.ViolationCase(c, "C16:logged:in-flight-export", "Export() between request and response does not show exactly the pending request", witness)
+		}
+		if _, err := exportJSON(l); err != nil {
+			r.ViolationCase(c, "C16:json:export-handler", err.Error(), witness)
+		}
+		witness["exported_while_in_flight"] = true
+		r.Count("exports_while_in_flight", 1)
+	}
 	res, err := http.ReadResponse(bufio.NewReader(bytes.NewReader(respWire)), req)
 	if err != nil {
 		inconc("net/http rejected a generated response: " + err.Error())
